@@ -369,6 +369,8 @@ func DNSCaching(ttl time.Duration) func(*Attacker) {
 				// Pick a random IP from each IP family and dial each concurrently.
 				// The first that succeeds wins, the other gets canceled.
 
+				// ips is the cache's own slice: shuffle and filter a copy of it.
+				ips = append([]string(nil), ips...)
 				rng.Shuffle(len(ips), func(i, j int) { ips[i], ips[j] = ips[j], ips[i] })
 
 				ips = firstOfEachIPFamily(ips)
